@@ -113,6 +113,8 @@ def nl_mul(ex, st, a, b, node):
     reals use z3's nonlinear arithmetic."""
     if isinstance(a, (int, float)) or isinstance(b, (int, float)):
         return a * b
+    if getattr(ex, 'nl_exact', False):
+        return Z(a) * Z(b)                 # this unit reasons with true (non-linear) products
     if is_intsort(a) and is_intsort(b):
         used('int*int -> mulI (uninterpreted product of dimensions in canonical form, with monotonicity/unit axioms)')
         return T.mul_canon(Z(a), Z(b))
@@ -1070,6 +1072,8 @@ def m_isinstance(ex, st, args, kwargs, node):
         return 'dict' in names
     if isinstance(v, VStr):
         return 'str' in names
+    if type(v).__name__ == 'VGen':
+        return bool(names & {'Generator'})
     raise Unsupported(f'isinstance of {type(v).__name__}')
 
 
